@@ -1,4 +1,5 @@
 import Falcon.Model.Hash
+import Falcon.Lemmas.HashStream
 
 /-!
 # C14 — HashToPoint is the specified rejection sampler (Algorithm 3)
@@ -64,6 +65,34 @@ theorem loop_length (σ : List Nat) (n : Nat) (h : n ≤ (σ.filter (· < 61445)
 
 /-- chunks are big-endian 16-bit words of the byte stream -/
 theorem chunks16_cons (a b : Nat) (rest : List Nat) : chunks16 (a :: b :: rest) = (a * 256 + b) :: chunks16 rest := rfl
+
+/-! ### the function as a whole: `hash_to_point(string, n)` with its SHAKE-256 squeezing -/
+
+/-- **`hash_to_point` = Algorithm 3 on the string's SHAKE-256 stream**: whenever the function returns n coefficients
+    (it always does unless the stream holds fewer than n accepted words in the model's squeezing budget), they are
+    the first n words below 5q of the big-endian 16-bit reading of the stream, reduced mod q — for every sufficiently
+    long prefix of the stream, so the number of blocks squeezed and their batching do not matter -/
+theorem hash_to_point_is_algorithm3 (msg : List Nat) (n : Nat) (h : (hashToPoint msg n).length = n) :
+    ∃ k, ∀ m, k ≤ m →
+      hashToPoint msg n = (((chunks16 (Keccak.shake256 msg m)).filter (· < 61445)).map (· % 12289)).take n := by
+  obtain ⟨k, hk⟩ := HashStream.hashToPoint_stable msg n h
+  exact ⟨k, fun m hm => by rw [← hk m hm, loop_eq_spec]; rfl⟩
+
+/-- every coefficient of the hashed point is in [0, q) -/
+theorem hash_to_point_canonical (msg : List Nat) (n : Nat) (h : (hashToPoint msg n).length = n) :
+    ∀ c ∈ hashToPoint msg n, c < 12289 := by
+  obtain ⟨k, hk⟩ := HashStream.hashToPoint_stable msg n h
+  rw [← hk k (Nat.le_refl k)]
+  exact loop_canonical _ _
+
+/-- the Falcon-512 point of a string is the first half of its Falcon-1024 point — for the function itself, although
+    the two calls squeeze different numbers of blocks -/
+theorem hash_512_is_prefix_of_1024 (msg : List Nat) (h5 : (hashToPoint msg 512).length = 512)
+    (h10 : (hashToPoint msg 1024).length = 1024) : hashToPoint msg 512 = (hashToPoint msg 1024).take 512 := by
+  obtain ⟨k1, hk1⟩ := HashStream.hashToPoint_stable msg 512 h5
+  obtain ⟨k2, hk2⟩ := HashStream.hashToPoint_stable msg 1024 h10
+  rw [← hk1 (max k1 k2) (Nat.le_max_left _ _), ← hk2 (max k1 k2) (Nat.le_max_right _ _)]
+  exact prefix_512_of_1024 _
 
 /-- non-vacuity: 61444 is accepted (as 61444 mod q = 12288), 61445 and 65535 are discarded -/
 example : loop [61445, 61444, 65535, 7, 12289] 3 = [12288, 7, 0] := by decide
